@@ -3,7 +3,10 @@
    canonical format:
      WF b # NUL r… # FI r tok… # FOS r tok… (strict) # FOT r tok… (textbook) # HP a b …
      # CM r unproductive | CM r <min> <max|inf>   (or CMNONE if the search produced no accepted certificate)
-     # MM done c… | MM panic | MM diverges | MM fuel     (mirror of rule_min_costs) *)
+     # MM done c… | MM panic | MM diverges | MM fuel     (mirror of the ORIGINAL rule_min_costs)
+     # FXMIN v… | FXMIN panic | FXMIN fuel   # FXMAX v… | FXMAX panic | FXMAX fuel
+       (mirrors of the REPAIRED rule_min_costs / rule_max_costs, C17/CostMirror.v: one u16 per rule,
+        65535 = no sentence (min) / unbounded (max)) *)
 let costs_of (line : string) (ntoks : int) : int array =
   let a = Array.make (max ntoks 1) 1 in
   List.iter (fun sec ->
@@ -69,4 +72,10 @@ let () =
      | McPanic -> Buffer.add_string b " # MM panic"
      | McDiverges -> Buffer.add_string b " # MM diverges"
      | McFuel -> Buffer.add_string b " # MM fuel");
+    List.iter (fun (tag, o) ->
+      match o with
+      | Done l -> Buffer.add_string b (" # " ^ tag); List.iter (fun v -> Buffer.add_string b (Printf.sprintf " %d" (int_of_n v))) l
+      | Panic -> Buffer.add_string b (" # " ^ tag ^ " panic")
+      | OutOfFuel -> Buffer.add_string b (" # " ^ tag ^ " fuel"))
+      [("FXMIN", rule_min_costs_fx g c); ("FXMAX", rule_max_costs_fx g c)];
     Buffer.contents b)
